@@ -3,7 +3,7 @@
    GetPublicKey. *)
 From Verif.Lib Require Import GoSem Bits.
 From Verif.Model Require Import ValueSearch.
-From Coq Require Import Lia.
+From Coq Require Import Lia ZifyBool ZifyNat ZifyN Sorted.
 Local Open Scope N_scope.
 
 Section Search.
@@ -434,7 +434,147 @@ Proof.
     inversion BH; subst. apply get_value_last. exists (rev r). reflexivity.
 Qed.
 
+(* ---- ties: Select induced by a rank, the first of equals wins -------------------------------- *)
+Section Rank.
+Variable rank : val -> N.
+(* on valid values Select is [rank_sel]: index 1 iff the second entry is ranked
+   strictly higher, index 0 otherwise -- in particular on a tie *)
+Hypothesis sel_rank : forall a b, valid k a = true -> valid k b = true ->
+  sel k a b = Some (if N.ltb (rank a) (rank b) then 1%nat else 0%nat).
+
+Lemma rank_sel_1 a b : valid k a = true -> valid k b = true -> (sel k a b = Some 1%nat <-> rank a < rank b).
+Proof.
+  intros Va Vb. rewrite (sel_rank a b Va Vb). destruct (N.ltb (rank a) (rank b)) eqn:E.
+  - apply N.ltb_lt in E. split; auto.
+  - apply N.ltb_ge in E. split; [discriminate|lia].
+Qed.
+
+Lemma rank_sel_0 a b : valid k a = true -> valid k b = true -> (sel k a b = Some 0%nat <-> rank b <= rank a).
+Proof.
+  intros Va Vb. rewrite (sel_rank a b Va Vb). destruct (N.ltb (rank a) (rank b)) eqn:E.
+  - apply N.ltb_lt in E. split; [discriminate|lia].
+  - apply N.ltb_ge in E. split; auto.
+Qed.
+
+(* the two laws of [search_final_best] / [merge_final] hold: a total preorder *)
+Lemma rank_total a b : valid k a = true -> valid k b = true -> sel k a b = Some 0%nat \/ sel k a b = Some 1%nat.
+Proof. intros Va Vb. rewrite (sel_rank a b Va Vb). destruct (N.ltb (rank a) (rank b)); auto. Qed.
+
+Lemma rank_trans a b c : valid k a = true -> valid k b = true -> valid k c = true ->
+  sel k a b = Some 1%nat -> ge a c -> ge b c.
+Proof.
+  intros Va Vb Vc S G. apply rank_sel_1 in S; auto. right. apply rank_sel_0; auto.
+  destruct G as [->|G]; [lia|]. apply rank_sel_0 in G; auto. lia.
+Qed.
+
+Lemma ge_rank f x : valid k f = true -> valid k x = true -> ge f x -> rank x <= rank f.
+Proof. intros Vf Vx [->|G]; [lia|]. apply rank_sel_0 in G; auto. Qed.
+
+(* a stream whose consecutive values are Select-improving climbs strictly in rank:
+   every value is ranked strictly above EVERY earlier one (no tie, no flip-flop) *)
+Lemma improving_rank l : (forall v, In v l -> valid k v = true) -> improving l ->
+  StronglySorted (fun a b => rank a < rank b) l.
+Proof.
+  intros V I. apply Sorted_StronglySorted; [intros x y z; lia|].
+  induction l as [|v rest IH]; [constructor|].
+  simpl in I. destruct I as [H I]. constructor.
+  - apply IH; [intros w Hw; apply V; right; exact Hw|exact I].
+  - destruct rest as [|v' r]; constructor. destruct H as [_ S].
+    apply rank_sel_1 in S; [exact S| |]; apply V; simpl; auto.
+Qed.
+
+Lemma search_std_rank_increasing self local resps nvals :
+  StronglySorted (fun a b => rank a < rank b) (search_std self local resps nvals).
+Proof.
+  apply improving_rank.
+  - intros v Hv. apply (search_std_valid self local resps nvals v Hv).
+  - apply search_improving.
+Qed.
+
+Lemma search_std_rank_final self local resps nvals x :
+  In x (map snd (consumed nvals pv_init (local_std self local ++ remote_arrivals resps))) ->
+  exists f, get_value (search_std self local resps nvals) = Some f /\ valid k f = true /\ rank x <= rank f.
+Proof.
+  intro Hx.
+  assert (AV: forall a, In a (local_std self local ++ remote_arrivals resps) -> valid k (snd a) = true)
+    by (intros a; apply std_arrivals_valid).
+  destruct (search_final_best rank_total rank_trans _ nvals x AV Hx) as (f & G & Ge).
+  assert (Vf: valid k f = true).
+  { pose proof G as G'. apply get_value_last in G'. destruct G' as [l E].
+    apply (search_std_valid self local resps nvals f). unfold ValueSearch.search_std. rewrite E.
+    apply in_app_iff. right. left. reflexivity. }
+  assert (Vx: valid k x = true).
+  { apply in_map_iff in Hx. destruct Hx as (a & <- & Ha). apply AV.
+    clear -Ha. revert Ha. generalize pv_init.
+    induction (local_std self local ++ remote_arrivals resps) as [|a0 l IH]; intros st Ha; simpl in Ha; [destruct Ha|].
+    destruct (pv_aborted st); [destruct Ha|]. destruct Ha as [->|Ha]; [left; reflexivity|right; eapply IH; eauto]. }
+  exists f. repeat split; auto. apply ge_rank; auto.
+Qed.
+
+(* one step on a value that is ranked no higher than the current best and is not
+   a byte-identical copy of it -- in particular a TIE: counted, not streamed,
+   best and peersWithBest unchanged (the sender is not recorded as holding the best) *)
+Lemma pv_step_not_better nvals st p v b :
+  pv_aborted st = false -> pv_best st = Some b -> valid k b = true -> valid k v = true ->
+  b <> v -> rank v <= rank b ->
+  pv_step nvals st (p, v) =
+    {| pv_best := Some b; pv_with_best := pv_with_best st; pv_n := S (pv_n st); pv_out := pv_out st;
+       pv_aborted := Nat.ltb 0 nvals && Nat.ltb nvals (S (pv_n st)) |}.
+Proof.
+  intros A B Vb Vv NE R. unfold ValueSearch.pv_step. rewrite A, B.
+  destruct (N.eqb b v) eqn:E; [apply N.eqb_eq in E; contradiction|].
+  assert (S0: sel k b v = Some 0%nat) by (apply rank_sel_0; auto). rewrite S0. reflexivity.
+Qed.
+
+(* ... so at the end its sender is sent the corrective put, if it is among the
+   closest peers of the lookup result, the search found something and was not
+   stopped by the quorum *)
+Lemma fixup_targets_spec closest st p :
+  In p (fixup_targets closest st) <->
+  In p closest /\ pv_best st <> None /\ pv_aborted st = false /\ ~ In p (pv_with_best st).
+Proof.
+  unfold fixup_targets. destruct (pv_best st) as [b|]; [|simpl; intuition congruence].
+  destruct (pv_aborted st); [simpl; intuition congruence|].
+  rewrite filter_In, Bool.negb_true_iff.
+  assert (X: existsb (N.eqb p) (pv_with_best st) = false <-> ~ In p (pv_with_best st)).
+  { split.
+    - intros E Hin. assert (T: existsb (N.eqb p) (pv_with_best st) = true)
+        by (apply existsb_exists; exists p; split; [exact Hin|apply N.eqb_refl]). congruence.
+    - intro N. destruct (existsb (N.eqb p) (pv_with_best st)) eqn:E; [|reflexivity].
+      apply existsb_exists in E. destruct E as (q & Hq & E). apply N.eqb_eq in E. subst q. contradiction. }
+  rewrite X. intuition congruence.
+Qed.
+
+(* the dual merge under a rank *)
+Lemma merge_rank_increasing l : (forall v, In v l -> valid k v = true) ->
+  StronglySorted (fun a b => rank a < rank b) (merge l).
+Proof.
+  intro V. apply improving_rank; [|apply merge_improving].
+  intros v Hv. apply V. apply merge_subset. exact Hv.
+Qed.
+
+Lemma merge_rank_final l x : (forall v, In v l -> valid k v = true) -> In x l ->
+  exists f, get_value (merge l) = Some f /\ In f l /\ rank x <= rank f.
+Proof.
+  intros V Hx. destruct (merge_final rank_total rank_trans l x V Hx) as (f & G & Ge).
+  assert (Hf: In f l).
+  { pose proof G as G'. apply get_value_last in G'. destruct G' as [l0 E]. apply merge_subset. rewrite E.
+    apply in_app_iff. right. left. reflexivity. }
+  exists f. repeat split; auto. apply ge_rank; auto.
+Qed.
+End Rank.
+
 End Search.
+
+(* [rank_sel] is such a Select, for every validity predicate *)
+Lemma rank_sel_is_rank valid rank k a b : valid k a = true -> valid k b = true ->
+  rank_sel rank k a b = Some (if N.ltb (rank k a) (rank k b) then 1%nat else 0%nat).
+Proof. reflexivity. Qed.
+
+(* the validator of the correspondence check is one on the values without the Select-error flag *)
+Lemma c_sel_is_rank kk a b : N.testbit (c_flags a) 1 = false -> N.testbit (c_flags b) 1 = false ->
+  c_sel kk a b = Some (if N.ltb (c_rank kk a) (c_rank kk b) then 1%nat else 0%nat).
+Proof. intros Ha Hb. unfold c_sel, c_rank, c_seq. rewrite Ha, Hb. reflexivity. Qed.
 
 (* an interleaving of two streams *)
 Inductive interleave : list val -> list val -> list val -> Prop :=
